@@ -377,6 +377,8 @@ def residual_cases(ctx, rng, scale, dist, failures):
         d = rng.choice([2, 3])
         K = rng.choice([2, 4, 6])
         nq = rng.choice([2, 3, 4])
+        if ci % 5 == 0:
+            nq, shared = 1, True          # a ONE-layer stack with a shared codebook is still a shared codebook (accumulate, one renormalisation per step)
         decay = rng.choice([0.5, 0.25, 0.75, 0.8, 1.0])
         kw = dict(dim=d, num_quantizers=nq, codebook_size=K, shared_codebook=shared, decay=decay, threshold_ema_dead_code=0)
         rvq = ResidualVQ(**kw)
